@@ -19,12 +19,18 @@ func BuildReport(resultPtr *rego.ResultSet, validationConfig c.ValidationConfigu
 		return "", errors.New("empty result from evaluation")
 	}
 	raw := result[0]
-	m := raw.Expressions[0].Value.(types.ObjectMap)
-
-	profileName := m["profile"].(string)
-	violations := m["violation"].([]any)
-	warnings := m["warning"].([]any)
-	infos := m["info"].([]any)
+	if len(raw.Expressions) == 0 || raw.Expressions[0] == nil {
+		return "", errors.New("empty result from evaluation")
+	}
+	// custom rego (rego_extensions) can redefine the rules the report is read from: check the shape instead of asserting it
+	m, isReport := raw.Expressions[0].Value.(types.ObjectMap)
+	profileName, hasName := m["profile"].(string)
+	violations, hasViolations := m["violation"].([]any)
+	warnings, hasWarnings := m["warning"].([]any)
+	infos, hasInfos := m["info"].([]any)
+	if !isReport || !hasName || !hasViolations || !hasWarnings || !hasInfos {
+		return "", errors.New("the evaluation did not return a report (check the rego_extensions of the profile)")
+	}
 	// custom rego (rego_extensions) can add arbitrary values to the result sets: only objects are validation results
 	if !allObjects(violations) || !allObjects(warnings) || !allObjects(infos) {
 		return "", errors.New("the evaluation returned a value that is not a validation result (check the rego_extensions of the profile)")
